@@ -236,6 +236,9 @@ def product_state(ctx, tm, qntot):
     cond = states.product_condition(ctx.rng, tm.em.gm, qntot, superpose=True)
     s = TTNS(tm.tree, cond)
     s.compress_config = big_cfg()
+    # (conditions may carry un-normalised local vectors; the projector-splitting drivers assert a canonical input - a pure
+    # gauge change moves the norm to the root)
+    s.canonicalise()
     return s
 
 
